@@ -119,12 +119,19 @@ def directed():
         ('ans-font0-minus1-sixel', 'ans', font0(2 ** 32 - 1, 2 ** 32 - 1) + SIXEL, (-1, -1, [(0, 0, 4, 6)])),
         ('ans-font0-w0-no-sixel', 'ans', font0(0, 0) + b'AB', None),
         ('ans-font0-2^30-sixel-origin', 'ans', font0(2 ** 30, 2 ** 30) + SIXEL, None),
-        # Known 2: the macro bomb through every loader with an ANSI parser inside; harmless for the others
+        # the former Known 2 (repaired by the nesting limit MAX_MACRO_NESTING, fix 2513579): the macro bomb through every loader with an ANSI parser inside
+        # (the file loads: the invocation is an error value that parse_with_parser logs); harmless for the others; chains around the limit; recursion with fan-out
         ('ans-macro-self', 'ans', bomb, None), ('avt-macro-self', 'avt', bomb, None), ('pcb-macro-self', 'pcb', bomb, None),
         ('msg-macro-self', 'msg', bomb, None), ('an1-macro-self', 'an1', bomb, None), ('zzz-macro-self', 'zzz', bomb, None),
         ('asc-macro-self', 'asc', bomb, None), ('seq-macro-self', 'seq', bomb, None), ('ata-macro-self', 'ata', bomb, None),
         ('ans-macro-chain', 'ans', b''.join(hexmacro(i, (b'<%d>' % i) + (E + b'[%d*z' % (i - 1) if i > 1 else b'\n')) for i in range(1, 7)) + E + b'[6*z', None),
     ]
+    for n in (15, 16, 17, 18):
+        chain = b''.join(hexmacro(i, b'A\n' if i == 1 else (b'%d' % (i % 10)) + E + b'[%d*z' % (i - 1) + b'.') for i in range(1, n + 1)) + E + b'[%d*z' % n + b'!'
+        d += [('%s-macro-chain-%d' % (ext, n), ext, chain, None) for ext in ('ans', 'avt', 'msg')]
+    d += [('%s-macro-self-fanout' % ext, ext, hexmacro(1, (b'a' + E + b'[1*z') * 4) + E + b'[1*z' + b'B', None) for ext in ('ans', 'pcb', 'an1')]
+    d += [('ans-macro-mutual', 'ans', hexmacro(1, b'x' + E + b'[2*z' + b'X') + hexmacro(2, b'y\n' + E + b'[1*z' + b'Y') + E + b'[2*z' + E + b'[1*z', None),
+          ('ans-macro-self-in-dcs', 'ans', hexmacro(1, E + b'Px' + E + b'[1*z' + b'r' + E + b'\\') + E + b'[1*z' + b'C' + E + b'\\' + b'D', None)]      # (not `Pq`: a sixel string that fails to decode ends the load with Err)
     return d
 
 def sauce_directed():
